@@ -391,6 +391,45 @@ pub fn run(tier: &str, seed: u64, outdir: &str) {
                         let Ok(mut cred) = issuer::create_credential(&cds[2].cred_def, &cds[2].cred_def_priv, &offer, &req, vals, Some(rc)) else { continue };
                         let signed = signed_sx(&cred);
                         let fed = fed_sx(&cred);
+                        // the received credential with the revocation witness of ANOTHER credential of the registry, the optional
+                        // registry id kept or left out, processed with the registry definition: never accepted
+                        if !w3c_form {
+                            let other = (|| {
+                                let (req2, _md2) = prover::create_credential_request(Some("entropy"), None, &cds[2].cred_def, &links[l], "ls", &offer).ok()?;
+                                let rc2 = anoncreds::types::CredentialRevocationConfig { reg_def: &reg.def, reg_def_private: &reg.def_priv, status_list: &list, registry_idx: idx + 1 };
+                                issuer::create_credential(&cds[2].cred_def, &cds[2].cred_def_priv, &offer, &req2, values(&[("name", "Alex"), ("age", "28"), ("Zip Code", "007")]), Some(rc2)).ok()
+                            })();
+                            if let Some(other) = other {
+                                let ow = serde_json::to_value(&other).unwrap()["witness"].clone();
+                                for drop_id in [false, true] {
+                                    let mut v = serde_json::to_value(&cred).unwrap();
+                                    // (the same witness under the crate's own equality - e.g. both the empty product, written differently - is no tampering)
+                                    let same = match (serde_json::from_value::<anoncreds::cl::Witness>(v["witness"].clone()), serde_json::from_value::<anoncreds::cl::Witness>(ow.clone())) {
+                                        (Ok(a), Ok(b)) => a == b,
+                                        _ => true,
+                                    };
+                                    if ow.is_null() || same {
+                                        continue;
+                                    }
+                                    v["witness"] = ow.clone();
+                                    if drop_id {
+                                        v.as_object_mut().unwrap().remove("rev_reg_id");
+                                    }
+                                    let Ok(mut tampered) = serde_json::from_value::<anoncreds::types::Credential>(v) else { continue };
+                                    let (res, _) = guarded!(prover::process_credential(&mut tampered, &md, &links[l], &cds[2].cred_def, Some(&reg.def)));
+                                    if std::env::var("AVH_DEBUG").is_ok() {
+                                        eprintln!("FW by_default={} idx={} l={} drop_id={} res={}", by_default, idx, l, drop_id, res);
+                                    }
+                                    let id = out.next_id();
+                                    let rid = 1000 + id as usize;
+                                    out.case(
+                                        &format!("(C11 {} P (2 {} {} {} {} t) {} 2 {} {} {} {} ())", id, signed, l, rid, rid, fed, l, rid, rid, res),
+                                        &format!("process:legacy:revocable-foreign-witness{}:{}", if drop_id { "-registry-id-left-out" } else { "" }, res),
+                                        || json!({"op": "process", "form": "legacy", "revocable": true, "witness": "of another credential", "rev_reg_id_removed": drop_id, "impl": res}),
+                                    );
+                                }
+                            }
+                        }
                         let (res, verify) = if !w3c_form {
                             let (res, _) = guarded!(prover::process_credential(&mut cred, &md, &links[l], &cds[2].cred_def, Some(&reg.def)));
                             let v = if res == "ok" {
